@@ -639,6 +639,10 @@ def request(case):
     mal = case.get("malformed")
     if mal in ("tnode_in_target", "cyclic_target", "extra_vertex", "target_tag_other_graph", "bad_topo"):
         return None    # these are built on the y0 side only (the model receives the same checks through other cases)
+    if any(d.get("drop_bi") for d in case["domains"]):
+        # whether the run ends in FAIL or in Algorithm 4's ValueError depends on the order in which Python's sets yield
+        # the ctf-factors (the first FAIL ends the loop); only the oracle's trichotomy clause is applied to this stream
+        return None
     g = case["g"]
     gs = C.graph_sexp(G.all_nodes(g), g["di"], g["bi"])
     doms = []
@@ -868,8 +872,11 @@ def finding_key(case, res):
         elif (fail.startswith("TypeError (") and "at _any_variables_with_inconsistent_values:" in fail
               and sig["simplify_risk"]):
             cls = "crash:simplify-typeerror"
-        elif (fail.startswith("ValueError (") and "at transport_district_intervening_on_parents:" in fail
-              and sig["domain_drops_bi"]):
+        elif (fail.startswith("ValueError (") and sig["domain_drops_bi"]
+              and ("at transport_district_intervening_on_parents:" in fail
+                   or ("at identify_district_variables:" in fail and "is not in list" in fail))):
+            # the district of the target is not bidirected-connected in the domain graph (whole graph: Algorithm 4's own
+            # check; inside an ancestral set: `.index(True)` of Tian's IDENTIFY)
             cls = "crash:sigmaTR-district-split"
     elif fail.startswith("returned Zero()"):
         if sig["reflexive"]:
